@@ -288,30 +288,10 @@ def run(ck):
 
 
 def strict_parallel(ck, apply_worker):
+    from . import c06
     found = 0
-    for bb, t in apply_worker.terms():
-        if t["k"] != "switch" or t["dty"] != "bool":
-            continue
-        e, neg = guards.switch_cond(apply_worker, bb)
-        if not (isinstance(e, tuple) and e[0] == "bin" and e[1] in ("Gt", "Lt", "Ge", "Le")):
-            continue
-        a, b = e[2], e[3]
-        la, lb = df.is_call(a, "::load"), df.is_call(b, "::load")
-        if not (la or lb):
-            continue
+    for st in c06.stop_tests(ck.prog, apply_worker):
         found += 1
-        op = e[1]
-        if la:
-            op = {"Gt": "Lt", "Lt": "Gt", "Ge": "Le", "Le": "Ge"}[op]
-        f, tr = guards.bool_edges(apply_worker, bb)
-        if neg:
-            f, tr = tr, f
-        loop = cfg.innermost_loop_of(apply_worker, bb)
-        good = False
-        if loop:
-            exits_on_true = tr not in loop[1]
-            exits_on_false = f not in loop[1]
-            good = (op == "Gt" and exits_on_true and not exits_on_false) or (op == "Le" and exits_on_false and not exits_on_true)
-        ck.require(good, "C13-R3", "parallel worker completes the failing patch",
-                   "the worker stops on `index %s earliest`: file patches of the failing patch would be skipped" % op, apply_worker.where(t))
+        ck.require(st["good"], "C13-R3", "parallel worker completes the failing patch",
+                   "the worker stops on `index %s earliest`: file patches of the failing patch would be skipped" % st["op"], st["where"])
     ck.floor("C13-R3", "stop tests in apply_worker", found, 1)
